@@ -1,16 +1,16 @@
 (* C11 - a query means what its text says.  Property statements only: each theorem is closed by
-   [exact <lemma>] and followed by Print Assumptions.  Models: Model/Query.v (the parser as it is
-   in query2.py), Model/QueryRef.v (reference grammar, printer under an arbitrary layout,
-   reference evaluator); proofs: Proofs/QueryRef*.v.
-   PARTIAL: the round trip parse (print t) = t is proved for every layout and every well-formed
-   term without dict literals (C11_parse_print_partial); for all terms including dicts the token
-   scanner is proved exact (C11_parse_token_exact, C11_scanner_neutral).  The dict-entry loop, the
-   statement / program level and eval = denote are not proved (statements in notes/agents/C11.md);
-   they are covered by the correspondence run and the reference-evaluator oracle only. *)
+   [exact <lemma>] and followed by Print Assumptions.  Models: Model/Query.v (the parser and the
+   interpreter as they are in query2.py / functions.py), Model/QueryRef.v (reference grammar,
+   printer under an arbitrary layout, reference evaluator); proofs: Proofs/QueryRef*.v.
+   Full statement: C11_run_denote (query() on the printed text of a well-formed program under any
+   white-space layout = the value the program denotes, errors and body calls included) with its
+   parts C11_parse_print (parse phase) and C11_eval_denote (interpret phase); C11_layout_irrelevant;
+   the clauses of the property text as corollaries (C11_literal_*, C11_call_*, C11_var_recent). *)
 From Coq Require Import String.
 From AwVerif Require Import Base.Prelude Model.PyStr Model.Query Model.QueryRef
   Proofs.QueryRefStr Proofs.QueryRefScan Proofs.QueryRefToken Proofs.QueryRefParse
-  Proofs.QueryRefLoops Proofs.QueryRefDict Proofs.QueryRefTerm Proofs.QueryRefProg Proofs.QueryExamples Proofs.QueryRefExamples.
+  Proofs.QueryRefLoops Proofs.QueryRefDict Proofs.QueryRefTerm Proofs.QueryRefProg Proofs.QueryRefEval
+  Proofs.QueryExamples Proofs.QueryRefExamples Proofs.QueryRefEvalEx.
 Open Scope Z_scope.
 
 (* String literals: QString.check stops exactly at the closing quote of a printed literal (any
@@ -115,3 +115,144 @@ Example C11_ex_run_denote :
   ex_denote ex_prog =
     Ok (VList [VList [VInt 1; VStr (zs "a""b,)")]; VDict [(zs "k", VInt 1)]; VInt 3]).
 Proof. vm_compute. repeat split. Qed.
+
+(* ------------------------------------------------------------------------------------------- *)
+(* Evaluation.                                                                                   *)
+
+(* Interpret phase: interpreting the token tree of a term in the namespace it was parsed in gives
+   exactly what the reference evaluator gives - the same value, the same world afterwards (the body
+   oracle is called with the same arguments in the same order), the namespace unchanged; when the
+   reference evaluator fails the interpreter fails with the same error class in the same world
+   (unknown variable / unknown function: InterpretError; wrong arity: InterpretError; wrong
+   argument type: FunctionError; an error raised inside a body: that error, TypeError turned into
+   InterpretError - all through the shared call_builtin).  Needs of well-formedness only that the
+   keys of every dict literal are distinct (dkeys; implied by wf, C11_wf_dkeys). *)
+Theorem C11_eval_denote : forall table W buckets body ns t, dkeys t -> forall w,
+  interp table W buckets body (tok_of ns t) ns w =
+  match denote table W buckets body ns t w with
+  | (Ok v, w') => (Ok (v, ns), w')
+  | (Err c, w') => (Err c, w')
+  | (OutOfFuel, w') => (OutOfFuel, w')
+  end.
+Proof. exact eval_denote. Qed.
+Print Assumptions C11_eval_denote.
+
+Theorem C11_wf_dkeys : forall md t, wf md t -> dkeys t.
+Proof. exact wf_dkeys. Qed.
+Print Assumptions C11_wf_dkeys.
+
+(* The property: for every white-space layout and every well-formed program (any number of
+   statements, rebinding, aliasing, every term kind at any depth) query() on the printed text
+   returns exactly what the program denotes - value or error class, and the world the built-in
+   bodies leave behind.  Every statement is parsed in the namespace its predecessors left, so "a
+   variable evaluates to its most recent assignment" is part of this equation. *)
+Theorem C11_run_denote : forall table W buckets body md lay, wf_layout lay ->
+  forall name starttime endtime pg, wf_prog md pg -> forall w,
+  run table W buckets body md name starttime endtime (print lay pg) w =
+  denote_prog table W buckets body name starttime endtime pg w.
+Proof. exact run_denote. Qed.
+Print Assumptions C11_run_denote.
+
+(* Spacing and line breaks around separators do not change the result. *)
+Theorem C11_layout_irrelevant : forall table W buckets body md lay1 lay2 name starttime endtime pg,
+  wf_layout lay1 -> wf_layout lay2 -> wf_prog md pg -> forall w,
+  run table W buckets body md name starttime endtime (print lay1 pg) w =
+  run table W buckets body md name starttime endtime (print lay2 pg) w.
+Proof. exact run_layout_irrelevant. Qed.
+Print Assumptions C11_layout_irrelevant.
+
+(* ------------------------------------------------------------------------------------------- *)
+(* The clauses of the property text.                                                             *)
+
+(* Integer, string, list and dict literals evaluate to themselves at any nesting depth: a
+   literal-only term denotes its own value in every namespace without any body call ... *)
+Theorem C11_literal_denote : forall table W buckets body ns l w,
+  denote table W buckets body ns (lit_term l) w = (Ok (lit_val l), w).
+Proof. exact denote_literal. Qed.
+Print Assumptions C11_literal_denote.
+
+(* ... and a program ending in RETURN = <literal> returns it, under every layout. *)
+Theorem C11_literal_run : forall table W buckets body md lay, wf_layout lay ->
+  forall name starttime endtime pg l w ns1 w1, wf_prog md pg -> wf md (lit_term l) ->
+  denote_stmts table W buckets body pg (initial_namespace name starttime endtime) w = (Ok ns1, w1) ->
+  run table W buckets body md name starttime endtime (print lay (pg ++ [(s_RETURN, lit_term l)])) w =
+  (Ok (lit_val l), w1).
+Proof. exact run_literal. Qed.
+Print Assumptions C11_literal_run.
+
+(* A function call applies the named built-in to the values of all of its arguments, evaluated in
+   written order (args_eval hands the world from each argument to the next); an unknown name is an
+   InterpretError. *)
+Theorem C11_call_denote : forall table W buckets body ns n args b w vals w1,
+  find_builtin table n = Some b -> args_eval (denote table W buckets body ns) args w vals w1 ->
+  denote table W buckets body ns (TCall n args) w = call_builtin W buckets body b vals w1.
+Proof. exact denote_call. Qed.
+Print Assumptions C11_call_denote.
+
+Theorem C11_call_run : forall table W buckets body md lay, wf_layout lay ->
+  forall name starttime endtime pg n args b w ns1 w1 vals w2, wf_prog md pg -> wf md (TCall n args) ->
+  denote_stmts table W buckets body pg (initial_namespace name starttime endtime) w = (Ok ns1, w1) ->
+  find_builtin table n = Some b -> args_eval (denote table W buckets body ns1) args w1 vals w2 ->
+  run table W buckets body md name starttime endtime (print lay (pg ++ [(s_RETURN, TCall n args)])) w =
+  call_builtin W buckets body b vals w2.
+Proof. exact run_call. Qed.
+Print Assumptions C11_call_run.
+
+(* A variable evaluates to its most recent assignment:  ...; x = e; <statements that do not assign
+   x>; RETURN = x;  returns the value e had when it was assigned. *)
+Theorem C11_var_recent : forall table W buckets body md lay, wf_layout lay ->
+  forall name starttime endtime pg x e pg2 w ns1 w1 v w2 ns3 w3,
+  wf_prog md pg -> wf_stmt md (x, e) -> wf_prog md pg2 ->
+  denote_stmts table W buckets body pg (initial_namespace name starttime endtime) w = (Ok ns1, w1) ->
+  denote table W buckets body ns1 e w1 = (Ok v, w2) ->
+  Forall (fun s : stmt => fst s <> x) pg2 ->
+  denote_stmts table W buckets body pg2 (dict_set ns1 x v) w2 = (Ok ns3, w3) ->
+  run table W buckets body md name starttime endtime
+      (print lay (pg ++ [(x, e)] ++ pg2 ++ [(s_RETURN, TVar x)])) w = (Ok v, w3).
+Proof. exact run_var_recent. Qed.
+Print Assumptions C11_var_recent.
+
+(* ------------------------------------------------------------------------------------------- *)
+(* Non-vacuity of the evaluation theorems (hypotheses met by concrete programs and layouts; the
+   run side obtained THROUGH the theorems, the reference side by computation).                   *)
+
+Example C11_ex_wf : wf_layout ex_layout /\ wf_layout ex_layout2 /\ wf_layout ex_compact /\
+  wf_prog 4300 ex_prog /\ wf_prog 4300 ex_rebind /\ wf 4300 (lit_term ex_lit).
+Proof. exact (conj ex_layout_wf (conj ex_layout2_wf (conj ex_compact_wf (conj ex_prog_wf (conj ex_rebind_wf ex_lit_wf))))). Qed.
+
+(* rebinding and aliasing: x = 1; x = [x, 2]; y = x; x = 3; RETURN = y  gives [1, 2] under a
+   layout of tabs, CR LF and form feeds *)
+Example C11_ex_rebind : ex_run_w (print ex_layout2 ex_rebind) = (Ok (VList [VInt 1; VInt 2]), 0).
+Proof.
+  unfold ex_run_w. rewrite (C11_run_denote _ _ _ _ _ _ ex_layout2_wf _ _ _ _ ex_rebind_wf). vm_compute. reflexivity.
+Qed.
+
+(* a nested literal returns itself *)
+Example C11_ex_literal : ex_run_w (print ex_layout [(s_RETURN, lit_term ex_lit)]) =
+  (Ok (VDict [(zs "a", VList [VInt 7; VDict [(zs "b", VStr (zs "it's ]}"))]]); (zs "c", VDict [])]), 0).
+Proof.
+  exact (C11_literal_run ex_table Z ex_buckets ex_body 4300 ex_layout ex_layout_wf (zs "n") (zs "t0") (zs "t1")
+           [] ex_lit 0 _ 0 (Forall_nil _) ex_lit_wf eq_refl).
+Qed.
+
+(* written order: the call counter numbers the three body calls of the arguments 0, 1, 2 *)
+Example C11_ex_order : ex_run_w (print ex_layout [(s_RETURN, TCall (zs "echo") ex_order_args)]) =
+  (Ok (VList [VOpaque 0; VOpaque 1; VList [VOpaque 2]]), 3).
+Proof.
+  unfold ex_run_w. rewrite (C11_run_denote _ _ _ _ _ _ ex_layout_wf). vm_compute. reflexivity.
+  constructor; [split; [apply wf_RETURN|exact ex_order_wf]|constructor].
+Qed.
+
+(* errors are the reference evaluator's errors: unknown variable, unknown function, wrong arity,
+   wrong argument type, an exception inside a body (after one earlier body call: world 2), no RETURN *)
+Example C11_ex_errors :
+  ex_run_w (print ex_layout ex_err_var) = (Err InterpretError, 0) /\
+  ex_run_w (print ex_layout ex_err_fn) = (Err InterpretError, 0) /\
+  ex_run_w (print ex_layout ex_err_arity) = (Err InterpretError, 0) /\
+  ex_run_w (print ex_layout ex_err_type) = (Err FunctionError, 0) /\
+  ex_run_w (print ex_layout ex_err_body) = (Err KeyError, 2) /\
+  ex_run_w (print ex_layout ex_err_noreturn) = (Err ParseError, 0).
+Proof.
+  destruct ex_errs_wf as (H1 & H2 & H3 & H4 & H5 & H6). unfold ex_run_w.
+  rewrite !(C11_run_denote _ _ _ _ _ _ ex_layout_wf) by assumption. vm_compute. repeat split.
+Qed.
